@@ -5,3 +5,4 @@ import NbdimeModel.Lcs
 import NbdimeModel.Diff
 import NbdimeModel.WF
 import NbdimeModel.History
+import NbdimeModel.GitCfg
